@@ -39,10 +39,35 @@ ASSUME LET V == TLCGet(4) IN
 \* marker U+029E are a class of their own: the implementation cannot tell them from keywords)
 KindSig(v) == IF v.t = "str" /\ Len(v.s) >= 1 /\ SubSeq(v.s, 1, 1) = KwMark THEN "str/kwmark" ELSE v.t
 
+\* "shared" mode: both operands are DERIVED FROM ONE value v (they may share structure in
+\* the implementation): (let [v E] (= (F v) (G v))) for sequence-valued E and derivations F, G
+SeqPool == <<"[1 2 3]", "(list 1 2 3)", "(conj [1 2] 3)", "(vec (list 1 2))", "[[1] [2]]", "(rest [0 1 2])">>
+Derive == <<"v", "(subvec (vec v) 0 1)", "(subvec (vec v) 1)", "(rest v)", "(seq v)", "(vec v)", "(take 1 v)",
+            "(conj v 4)", "(concat v [])", "(cons 1 (rest v))", "(drop-last 1 v)", "(with-meta v {:m 1})", "[v]", "{:k v}",
+            "{:k (rest v)}", "[(vec v)]">>
+NS == Len(SeqPool) * Len(Derive)
+SharedProg(i, j) ==
+  \* i encodes (E, F), j encodes G
+  LET e == ((i - 1) \div Len(Derive)) + 1
+      f == ((i - 1) % Len(Derive)) + 1
+      g == ((j - 1) % Len(Derive)) + 1
+  IN ListV(<<SymV("let"), VecV(<<SymV("v"), Parse(SeqPool[e])>>),
+             ListV(<<SymV("="), Parse(Derive[f]), Parse(Derive[g])>>)>>)
+
+CONSTANT Mode   \* "pairs" | "shared"
+
 VARIABLES i, j, ph
-Init == ph = 0 /\ i \in 1..NP /\ j \in 1..NP
+Init == /\ ph = 0
+        /\ IF Mode = "pairs" THEN i \in 1..NP /\ j \in 1..NP ELSE i \in 1..NS /\ j \in 1..Len(Derive)
 Next == /\ ph = 0 /\ ph' = 1 /\ UNCHANGED <<i, j>>
-        /\ LET pool == TLCGet(3)
+        /\ IF Mode = "shared"
+           THEN LET prog == SharedProg(i, j)
+                    r == Run(<<prog>>)
+                    c == [kind |-> "prog", tag |-> "eq-shared", sig |-> "=shared", src |-> PrStr(prog), forms |-> <<prog>>,
+                          i |-> i, j |-> j, allow |-> Outcome(r, {})]
+                IN PrintT("CASE " \o ToJson(c))
+           ELSE
+           LET pool == TLCGet(3)
                prog == ListV(<<SymV("="), pool[i], pool[j]>>)
                r == Run(<<prog>>)
                V == TLCGet(4)
